@@ -2,7 +2,7 @@
   The SM2 models instantiated with everything regenerated from the source: curve parameters,
   addition chains, point formulas, base-point tables, zBytes, SM3 constants.
   Field arithmetic is `montOps` (Montgomery residues as naturals) — the meaning of the Fiat code;
-  `SMGo/Model/FiatInst.lean` provides the instance running the generated Fiat functions themselves.
+  `SMGo/Model/SM2InstFiat.lean` provides the instance running the generated Fiat functions themselves.
 -/
 import SMGo.Model.SM2Proto
 import SMGo.Gen.SM2Params
